@@ -96,7 +96,7 @@ def run(sc, cfg):
             except vsc.SolveFailure:
                 outcome = "SolveFailure"
             except Exception as e:  # noqa
-                outcome = "exc:" + type(e).__name__
+                outcome = "exc:" + type(e).__name__ + ":" + str(e)[:60]
             rec = {"outcome": outcome, "values": env.snapshot_obj(o)}
         elif kind == "get":
             hands.append(objs[op[1]].get_randstate())
